@@ -23,7 +23,7 @@ EXPLANATION = ("SPACES AND COMMENTS, ANY AMOUNT: the real Scanner.scan is execut
                "the listed presentation changes leaves bytes, offsets and symbols unchanged is the bounded metamorphic part, through the real pipeline.")
 TRUSTED = ["the scanner contracts of C15/C17 (whitespace / comment skipping)"]
 ASSUMPTIONS = ["the space/comment obligations are stated per statement FORM (24 forms with fixed literal operands); that other operands / mnemonics behave alike is covered by the "
-               "bounded re-layout sweep; block-comment text is any text without `*`",
+               "bounded re-layout sweep; block-comment text is any text in which no `*/` starts",
                "composition of single-run facts to full layout independence is argued, not machine-checked",
                "bounded: every listed presentation change applied at every applicable position of generated programs and sample sources, outputs and symbols compared"]
 
@@ -99,7 +99,7 @@ SPACED = {
     "end-of-line ; comment (any text)": (["_n", "nop", "_t", ";", ";c", "\n", "_n", "rts", "_t"], [("OPCODE_NAKED", "nop"), ("COMMENT", None), ("OPCODE_NAKED", "rts")]),
     "full-line ; comment (any text)": (["_n", "nop", "_t", "\n", "_n", ";", ";c", "\n", "_n", "rts", "_t"], [("OPCODE_NAKED", "nop"), ("COMMENT", None), ("OPCODE_NAKED", "rts")]),
     "; comment after an operand": (["_n", "lda", "__", "#", "_", "0x12", "_t", ";", ";c", "\n", "_n", "rts"], [("OPCODE", "lda"), ("SHARP", "#"), ("NUMBER", "0x12"), ("COMMENT", None), ("OPCODE_NAKED", "rts")]),
-    "/* */ comment between statements (any text without *)": (["_n", "nop", "_t", "\n", "_n", "/*", "/*c", "*/", "_n", "rts", "_t"],
+    "/* */ comment between statements (any text)": (["_n", "nop", "_t", "\n", "_n", "/*", "/*c", "*/", "_n", "rts", "_t"],
                                                                [("OPCODE_NAKED", "nop"), ("COMMENT", None), ("OPCODE_NAKED", "rts")]),
 }
 
@@ -136,7 +136,7 @@ def shape_spaced(name):
             elif x == ";c":
                 ps.append(("chars", f"comment{k}", 1, 0x10FFFF, "\n", 0))  # any comment text: every character but the line end (and NUL, the scanner's end marker)
             elif x == "/*c":
-                ps.append(("chars", f"comment{k}", 1, 0x10FFFF, "*", 0))  # any text without `*` (hence without the terminator), line ends included
+                ps.append(("no_block_end", f"comment{k}", 0))  # any text in which no terminator starts: `*`, line ends, `/` ... included (e.g. `/* doc **/`)
             else:
                 ps.append(("lit", x))
         text, _spans = B.text("input", ps)
